@@ -648,17 +648,39 @@ def c07_check_program(steps: list, sel: str, seed: int) -> dict:
     except Exception as e:  # noqa: BLE001
         return {"failures": fails, "stats": stats, "infra": f"build failed {type(e).__name__}: {str(e)[:200]}"}
     for trial in range(2):  # two different bindings of the (unrelated) inputs
+        feed = random_feed(model, seed * 7 + trial)
         try:
-            outs = ort_run(model, random_feed(model, seed * 7 + trial))
+            outs = ort_run(model, feed)
         except Exception as e:  # noqa: BLE001
             return {"failures": fails, "stats": stats, "infra": f"ort failed {type(e).__name__}: {str(e)[:200]}"}
-        for (i, v), o in zip(exposed, outs):
+        ref_outs: list = []  # onnx.reference on the built model, computed only if onnxruntime disagrees
+
+        def second_opinion(pos):
+            """The other evaluator's result for output `pos` of the *built* model (None if unavailable)."""
+            if not ref_outs:
+                try:
+                    import onnx.reference
+
+                    ref_outs.append(onnx.reference.ReferenceEvaluator(model).run(None, feed))
+                except Exception:  # noqa: BLE001
+                    ref_outs.append(None)
+            return None if ref_outs[0] is None else ref_outs[0][pos]
+
+        for pos, ((i, v), o) in enumerate(zip(exposed, outs)):
             opn = steps[r["step_of_var"][i]]["op"]
             if L.has_value(v):
                 stats["compared"] += 1
                 if opn in ("topk", "split", "unique", "inline", "inline0"):
                     stats["multi"] += 1
                 why = values_equal(v._get_value(), o)
+                if why:
+                    # onnxruntime is the reference for "what the model computes", but it has defects of its
+                    # own (1.30: Gather on 2-D string tensors drops elements). A disagreement counts only if
+                    # onnx.reference, run on the same built model, does not side with the propagated value.
+                    alt = second_opinion(pos)
+                    if alt is not None and values_equal(v._get_value(), alt) is None:
+                        stats["evaluators_disagree"] = stats.get("evaluators_disagree", 0) + 1
+                        why = None
                 if why:
                     which = v._which_output
                     fails.append((f"value-differs:{opn}:{which}:{why.split(':')[0]}",
@@ -667,6 +689,10 @@ def c07_check_program(steps: list, sel: str, seed: int) -> dict:
             stats["derived_types"] += 1
             if isinstance(o, np.ndarray):
                 why = L.conforms(o if o.dtype.kind != "O" else o.astype(str), v.type)
+                if why:
+                    alt = second_opinion(pos)
+                    if isinstance(alt, np.ndarray) and L.conforms(alt if alt.dtype.kind != "O" else alt.astype(str), v.type) is None:
+                        why = None
                 if why:
                     fails.append((f"type-unsound:{opn}:{why.split(':')[0]}",
                                   f"[{sel}] var {i} of {opn} reported {v.type} but the built model gives {o.dtype}{list(o.shape)}"))
